@@ -60,8 +60,14 @@ def build_blocks(cfg, keys, parent, tag=b""):
     return w, g, blocks, t1
 
 
+class Runaway(Exception):
+    """Far more deliveries than any synchronisation of this universe needs, and still messages in flight."""
+
+
 class Run:
     def __init__(self, cfg, keys, parent, init, peers, batch, tid):
+        self.ndeliver = 0
+        self.budget = max(4000, 150 * len(parent) * sum(len(v) for v in peers.values()))
         self.parent, self.init, self.peers = parent, init, peers
         self.w, self.g, self.blocks, self.t1 = build_blocks(cfg, keys, parent)
         self.id_of = {b.hash(): i for i, b in self.blocks.items()}
@@ -108,6 +114,9 @@ class Run:
             net.tick()
             self.record("tick", n, 0, compare)
         elif a == "deliver":
+            self.ndeliver += 1
+            if self.ndeliver > self.budget:
+                raise Runaway()
             net.deliver(n, m)
             self.record("deliver", n, m, compare)
         elif a == "round":
@@ -178,6 +187,11 @@ class Run:
     def trace(self):
         return {"id": self.tid, "events": self.events}
 
+    def runaway_trace(self):
+        """The run did not become quiet within its delivery budget: a one-event trace (the history is too long to be followed step by step)."""
+        self.record("runaway", 1, 0, compare=False)
+        return {"id": self.tid, "events": self.events[-1:]}
+
     def close(self):
         self.net.close()
 
@@ -235,7 +249,10 @@ def run(pid, tier, replay=None):
     # ---- (b) spec -> code
     chk.mark("design level (last plan entry)")
     tid = 0
+    nrunaway = [0]
     for uname, (hs, batch) in batches.items():
+        if nrunaway[0] >= 3:
+            break
         parent, init, peers = UNIVERSES[uname]
         nrep = 25 if quick else 250
         if len(hs) > nrep:
@@ -245,13 +262,19 @@ def run(pid, tier, replay=None):
             tid += 1
             run_ = Run(cfg, keys, parent, init, peers, batch, tid)
             try:
-                for act in h:
-                    if act["a"] == "nextround":
-                        continue
-                    run_.do(act, compare=True)
-                run_.settle(rng)
-                traces.append(run_.trace())
+                try:
+                    for act in h:
+                        if act["a"] == "nextround":
+                            continue
+                        run_.do(act, compare=True)
+                    run_.settle(rng)
+                    traces.append(run_.trace())
+                except Runaway:
+                    traces.append(run_.runaway_trace())
+                    nrunaway[0] += 1
                 chk.case(json.dumps([uname, h]), nontrivial=any(a["a"] in ("step", "tick") for a in h))
+                if nrunaway[0] >= 3:
+                    break                   # enough: every further run would burn its whole delivery budget as well
             finally:
                 run_.close()
         chk.sample({"source": "MC_Net behaviour (%s)" % uname, "actions": [[a["a"], a["n"], a["m"]] for a in hs[0][:20]]})
@@ -261,7 +284,10 @@ def run(pid, tier, replay=None):
     chk.mark("spec->code replay + validation")
     nrand = 14 if quick else 60
     traces_by = {}
+    kind = ""
     for i in range(nrand):
+        if nrunaway[0] >= 3:
+            break
         kind = ["line_deep", "deep_fork_stored", "multi_batch", "three_nodes", "small", "line_deep", "deep_fork_stored", "deep_fork"][i] if i < 8 else \
             rng.choice(["deep_fork", "deep_fork_stored", "multi_batch", "three_nodes", "small", "line_deep"])
         stored_part = kind == "deep_fork_stored"       # the server also stores a proper, non-empty part of the requester's branch
@@ -331,6 +357,8 @@ def run(pid, tier, replay=None):
             for act in prefix:
                 run_.do(act)
             for _ in range(rng.randint(5, 60)):
+                if run_.ndeliver > run_.budget:
+                    break
                 links = [k for k, q in run_.net.queues.items() if q]
                 x = rng.random()
                 if links and x < 0.7:
@@ -343,13 +371,18 @@ def run(pid, tier, replay=None):
                         run_.do({"a": "step", "n": n, "m": m})
                 else:
                     run_.do({"a": "tick", "n": 1, "m": 0})
-            run_.settle(rng)
-            # once they share a head: a transaction from a random node, then settle again
-            o = rng.choice(sorted(peers))
-            run_.do({"a": "orig", "n": o, "m": 1, "spend": "recent"})
-            run_.settle(rng, max_rounds=4)
             key = json.dumps([sorted(parent.items()), sorted((n, sorted(s)) for n, s in init.items()), sorted((n, sorted(s)) for n, s in peers.items()), batch])
-            traces_by.setdefault(key, (parent, init, peers, batch, []))[4].append(run_.trace())
+            try:
+                run_.settle(rng)
+                # once they share a head: a transaction from a random node, then settle again
+                o = rng.choice(sorted(peers))
+                run_.do({"a": "orig", "n": o, "m": 1, "spend": "recent"})
+                run_.settle(rng, max_rounds=4)
+                traces_by.setdefault(key, (parent, init, peers, batch, []))[4].append(run_.trace())
+            except Runaway:
+                traces_by.setdefault(key, (parent, init, peers, batch, []))[4].append(run_.runaway_trace())
+                nrunaway[0] += 1
+            chk.extra["max_deliveries_over_budget_ratio"] = max(chk.extra.get("max_deliveries_over_budget_ratio", 0), round(run_.ndeliver / run_.budget, 3))
             chk.case((kind, i), nontrivial=True)
         finally:
             run_.close()
@@ -357,7 +390,8 @@ def run(pid, tier, replay=None):
     for key, (parent, init, peers, batch, traces) in traces_by.items():
         judge(chk, traces, parent, init, peers, batch)
     chk.mark("randomized schedules validated")
-    chk.sample({"source": "randomized schedule", "universe": kind, "events": [[e["a"], e["n"], e["m"]] for e in traces[0]["events"][:15]]})
+    if traces_by:
+        chk.sample({"source": "randomized schedule", "universe": kind, "events": [[e["a"], e["n"], e["m"]] for e in traces[0]["events"][:15]]})
     # ---- (e) the repository's own integration tests with the verification hooks on: real threads, real sockets.
     #      Each node's event log (every handled sync message, every periodic step that acted) is validated locally against Net:
     #      received messages are environment inputs, the node's state after each event must be what Net's handler produces.
